@@ -10,6 +10,7 @@ import AutomataVerif.Proofs.ValidateAll
 namespace AV
 
 set_option linter.unusedSectionVars false
+set_option linter.unusedSimpArgs false
 
 variable {σ α γ : Type} [DecidableEq σ] [DecidableEq α] [DecidableEq γ]
 
@@ -42,21 +43,25 @@ namespace DFA
 inductive Rule | missingRow | missingSymbol | unknownSymbol | unknownEndState | badInitial | badFinal
   deriving DecidableEq, Repr
 
+def Rule.kind : Rule → Gen.Err
+  | .missingRow => .missingStateError
+  | .missingSymbol => .missingSymbolError
+  | .unknownSymbol => .invalidSymbolError
+  | .unknownEndState => .invalidStateError
+  | .badInitial => .invalidStateError
+  | .badFinal => .invalidStateError
+
+def Rule.stage : Rule → Nat
+  | .missingRow => 0
+  | .missingSymbol => 1
+  | .unknownSymbol => 1
+  | .unknownEndState => 1
+  | .badInitial => 2
+  | .badFinal => 3
+
 def rules : RuleSys (DFA σ α) Rule where
-  kind
-    | .missingRow => .missingStateError
-    | .missingSymbol => .missingSymbolError
-    | .unknownSymbol => .invalidSymbolError
-    | .unknownEndState => .invalidStateError
-    | .badInitial => .invalidStateError
-    | .badFinal => .invalidStateError
-  stage
-    | .missingRow => 0
-    | .missingSymbol => 1
-    | .unknownSymbol => 1
-    | .unknownEndState => 1
-    | .badInitial => 2
-    | .badFinal => 3
+  kind := Rule.kind
+  stage := Rule.stage
   Violates d
     | .missingRow => ∃ q ∈ d.states, q ∉ akeys d.trans
     | .missingSymbol => d.allowPartial = false ∧ ∃ kv ∈ d.trans, ∃ a ∈ d.syms, a ∉ akeys kv.2
@@ -64,6 +69,9 @@ def rules : RuleSys (DFA σ α) Rule where
     | .unknownEndState => ∃ kv ∈ d.trans, ∃ q ∈ avals kv.2, q ∉ d.states
     | .badInitial => d.init ∉ d.states
     | .badFinal => ∃ q ∈ d.finals, q ∉ d.states
+
+theorem rules_stage : (rules : RuleSys (DFA σ α) Rule).stage = Rule.stage := rfl
+theorem rules_kind : (rules : RuleSys (DFA σ α) Rule).kind = Rule.kind := rfl
 
 theorem wf_iff (d : DFA σ α) : d.WF ↔ ∀ r, ¬ rules.Violates d r := by
   constructor
@@ -120,7 +128,7 @@ theorem rules_correct : (rules : RuleSys (DFA σ α) Rule).Correct validate wher
       obtain ⟨q, hq, hg⟩ := firstErr_eq_error h0
       obtain ⟨hc, rfl⟩ := guardE_eq_error.mp hg
       refine ⟨.missingRow, ⟨q, hq, by simpa [← ahas_iff, Bool.not_eq_true] using hc⟩, rfl, ?_⟩
-      intro r' hr'; cases r' <;> simp [rules] at hr'
+      intro r' hr'; cases r' <;> simp [rules, Rule.stage] at hr'
     have n0 : ¬ rules.Violates d .missingRow := by
       unfold validateStartStates at ok0
       simp only [firstErr_eq_ok, guardE_eq_ok, ahas_iff] at ok0
@@ -129,11 +137,11 @@ theorem rules_correct : (rules : RuleSys (DFA σ α) Rule).Correct validate wher
     · obtain ⟨kv, hkv, hrow⟩ := firstErr_eq_error h1
       rcases validateRow_error d kv.2 e hrow with ⟨hp, ⟨a, ha, hna⟩, rfl⟩ | ⟨⟨a, ha, hna⟩, rfl⟩ | ⟨⟨q, hq, hnq⟩, rfl⟩
       · refine ⟨.missingSymbol, ⟨hp, kv, hkv, a, ha, hna⟩, rfl, ?_⟩
-        intro r' hr'; cases r' <;> simp [rules] at hr' <;> exact n0
+        intro r' hr'; cases r' <;> simp [rules, Rule.stage] at hr' <;> exact n0
       · refine ⟨.unknownSymbol, ⟨kv, hkv, a, ha, hna⟩, rfl, ?_⟩
-        intro r' hr'; cases r' <;> simp [rules] at hr' <;> exact n0
+        intro r' hr'; cases r' <;> simp [rules, Rule.stage] at hr' <;> exact n0
       · refine ⟨.unknownEndState, ⟨kv, hkv, q, hq, hnq⟩, rfl, ?_⟩
-        intro r' hr'; cases r' <;> simp [rules] at hr' <;> exact n0
+        intro r' hr'; cases r' <;> simp [rules, Rule.stage] at hr' <;> exact n0
     have n1 : ¬ rules.Violates d .missingSymbol ∧ ¬ rules.Violates d .unknownSymbol ∧
         ¬ rules.Violates d .unknownEndState := by
       simp only [firstErr_eq_ok, validateRow_eq_ok] at ok1
@@ -144,7 +152,7 @@ theorem rules_correct : (rules : RuleSys (DFA σ α) Rule).Correct validate wher
     rcases Res.andThen_eq_error.mp h with h2 | ⟨ok2, h⟩
     · obtain ⟨hc, rfl⟩ := guardE_eq_error.mp h2
       refine ⟨.badInitial, by simpa [rules] using hc, rfl, ?_⟩
-      intro r' hr'; cases r' <;> simp [rules] at hr'
+      intro r' hr'; cases r' <;> simp [rules, Rule.stage] at hr'
       · exact n0
       · exact n1.1
       · exact n1.2.1
@@ -157,7 +165,7 @@ theorem rules_correct : (rules : RuleSys (DFA σ α) Rule).Correct validate wher
           rw [this] at hc; cases hc
         simpa [rules] using this
       refine ⟨.badFinal, hv, rfl, ?_⟩
-      intro r' hr'; cases r' <;> simp [rules] at hr'
+      intro r' hr'; cases r' <;> simp [rules, Rule.stage] at hr'
       · exact n0
       · exact n1.1
       · exact n1.2.1
@@ -170,25 +178,32 @@ namespace NFA
 inductive Rule | unknownSymbol | unknownEndState | badInitial | initialNoRow | badFinal
   deriving DecidableEq, Repr
 
+def Rule.kind : Rule → Gen.Err
+  | .unknownSymbol => .invalidSymbolError
+  | .unknownEndState => .invalidStateError
+  | .badInitial => .invalidStateError
+  | .initialNoRow => .missingStateError
+  | .badFinal => .invalidStateError
+
+def Rule.stage : Rule → Nat
+  | .unknownSymbol => 0
+  | .unknownEndState => 0
+  | .badInitial => 1
+  | .initialNoRow => 2
+  | .badFinal => 3
+
 def rules : RuleSys (NFA σ α) Rule where
-  kind
-    | .unknownSymbol => .invalidSymbolError
-    | .unknownEndState => .invalidStateError
-    | .badInitial => .invalidStateError
-    | .initialNoRow => .missingStateError
-    | .badFinal => .invalidStateError
-  stage
-    | .unknownSymbol => 0
-    | .unknownEndState => 0
-    | .badInitial => 1
-    | .initialNoRow => 2
-    | .badFinal => 3
+  kind := Rule.kind
+  stage := Rule.stage
   Violates n
     | .unknownSymbol => ∃ kv ∈ n.trans, ∃ a, some a ∈ akeys kv.2 ∧ a ∉ n.syms
     | .unknownEndState => ∃ kv ∈ n.trans, ∃ ts ∈ avals kv.2, ∃ q ∈ ts, q ∉ n.states
     | .badInitial => n.init ∉ n.states
     | .initialNoRow => n.init ∉ akeys n.trans ∧ 1 < n.states.length
     | .badFinal => ∃ q ∈ n.finals, q ∉ n.states
+
+theorem rules_stage : (rules : RuleSys (NFA σ α) Rule).stage = Rule.stage := rfl
+theorem rules_kind : (rules : RuleSys (NFA σ α) Rule).kind = Rule.kind := rfl
 
 theorem wf_iff (n : NFA σ α) : n.WF ↔ ∀ r, ¬ rules.Violates n r := by
   constructor
@@ -240,9 +255,9 @@ theorem rules_correct : (rules : RuleSys (NFA σ α) Rule).Correct validate wher
     · obtain ⟨kv, hkv, hrow⟩ := firstErr_eq_error h0
       rcases validateRow_error n kv.2 e hrow with ⟨⟨a, ha, hna⟩, rfl⟩ | ⟨⟨ts, hts, q, hq, hnq⟩, rfl⟩
       · refine ⟨.unknownSymbol, ⟨kv, hkv, a, ha, hna⟩, rfl, ?_⟩
-        intro r' hr'; cases r' <;> simp [rules] at hr'
+        intro r' hr'; cases r' <;> simp [rules, Rule.stage] at hr'
       · refine ⟨.unknownEndState, ⟨kv, hkv, ts, hts, q, hq, hnq⟩, rfl, ?_⟩
-        intro r' hr'; cases r' <;> simp [rules] at hr'
+        intro r' hr'; cases r' <;> simp [rules, Rule.stage] at hr'
     have n0a : ¬ rules.Violates n .unknownSymbol := by
       simp only [firstErr_eq_ok, validateRow_eq_ok] at ok0
       simp only [rules, not_exists, not_and, Classical.not_not]
@@ -254,7 +269,7 @@ theorem rules_correct : (rules : RuleSys (NFA σ α) Rule).Correct validate wher
     rcases Res.andThen_eq_error.mp h with h1 | ⟨ok1, h⟩
     · obtain ⟨hc, rfl⟩ := guardE_eq_error.mp h1
       refine ⟨.badInitial, by simpa [rules] using hc, rfl, ?_⟩
-      intro r' hr'; cases r' <;> simp [rules] at hr' <;> assumption
+      intro r' hr'; cases r' <;> simp [rules, Rule.stage] at hr' <;> assumption
     have n1 : ¬ rules.Violates n .badInitial := by
       have := guardE_eq_ok.mp ok1
       simpa [rules] using this
@@ -266,7 +281,7 @@ theorem rules_correct : (rules : RuleSys (NFA σ α) Rule).Correct validate wher
         · intro hk; rw [ahas_iff.mpr hk] at hc; exact absurd hc.1 (by simp)
         · have := hc.2; simp only [decide_eq_false_iff_not, Nat.not_le] at this; exact this
       refine ⟨.initialNoRow, hv, rfl, ?_⟩
-      intro r' hr'; cases r' <;> simp [rules] at hr' <;> assumption
+      intro r' hr'; cases r' <;> simp [rules, Rule.stage] at hr' <;> assumption
     have n2 : ¬ rules.Violates n .initialNoRow := by
       have := guardE_eq_ok.mp ok2
       simp only [Bool.or_eq_true, decide_eq_true_eq, ahas_iff] at this
@@ -282,7 +297,7 @@ theorem rules_correct : (rules : RuleSys (NFA σ α) Rule).Correct validate wher
         rw [this] at hc; cases hc
       simpa [rules] using this
     refine ⟨.badFinal, hv, rfl, ?_⟩
-    intro r' hr'; cases r' <;> simp [rules] at hr' <;> assumption
+    intro r' hr'; cases r' <;> simp [rules, Rule.stage] at hr' <;> assumption
 
 end NFA
 
@@ -298,31 +313,35 @@ symbols and `* | ( ) ?` (and is not empty), or the regex validator says it is in
 def Malformed (g : GNFA σ α) (l : GLabel α) : Prop :=
   ((∃ c ∈ l.chars, g.charOk c = false) ∧ l.chars ≠ []) ∨ l.verdict = .invalid
 
+def Rule.kind : Rule → Gen.Err
+  | .badInitial => .invalidStateError
+  | .badFinal => .invalidStateError
+  | .initialEqualsFinal => .invalidStateError
+  | .missingRow => .missingStateError
+  | .malformedLabel => .invalidRegexError
+  | .labelLexerError => .lexerError
+  | .finalHasTransitions => .invalidStateError
+  | .missingEntry => .missingStateError
+  | .unknownEndState => .invalidStateError
+  | .transitionIntoInitial => .invalidStateError
+  | .initialNoRow => .missingStateError
+
+def Rule.stage : Rule → Nat
+  | .badInitial => 0
+  | .badFinal => 1
+  | .initialEqualsFinal => 2
+  | .missingRow => 3
+  | .malformedLabel => 4
+  | .labelLexerError => 4
+  | .finalHasTransitions => 4
+  | .missingEntry => 4
+  | .unknownEndState => 4
+  | .transitionIntoInitial => 4
+  | .initialNoRow => 5
+
 def rules : RuleSys (GNFA σ α) Rule where
-  kind
-    | .badInitial => .invalidStateError
-    | .badFinal => .invalidStateError
-    | .initialEqualsFinal => .invalidStateError
-    | .missingRow => .missingStateError
-    | .malformedLabel => .invalidRegexError
-    | .labelLexerError => .lexerError
-    | .finalHasTransitions => .invalidStateError
-    | .missingEntry => .missingStateError
-    | .unknownEndState => .invalidStateError
-    | .transitionIntoInitial => .invalidStateError
-    | .initialNoRow => .missingStateError
-  stage
-    | .badInitial => 0
-    | .badFinal => 1
-    | .initialEqualsFinal => 2
-    | .missingRow => 3
-    | .malformedLabel => 4
-    | .labelLexerError => 4
-    | .finalHasTransitions => 4
-    | .missingEntry => 4
-    | .unknownEndState => 4
-    | .transitionIntoInitial => 4
-    | .initialNoRow => 5
+  kind := Rule.kind
+  stage := Rule.stage
   Violates g
     | .badInitial => g.init ∉ g.states
     | .badFinal => g.final ∉ g.states
@@ -335,6 +354,9 @@ def rules : RuleSys (GNFA σ α) Rule where
     | .unknownEndState => ∃ kv ∈ g.trans, ∃ q ∈ akeys kv.2, q ∉ g.states
     | .transitionIntoInitial => ∃ kv ∈ g.trans, g.entersInit kv.2 = true
     | .initialNoRow => g.init ∉ akeys g.trans ∧ 1 < g.states.length
+
+theorem rules_stage : (rules : RuleSys (GNFA σ α) Rule).stage = Rule.stage := rfl
+theorem rules_kind : (rules : RuleSys (GNFA σ α) Rule).kind = Rule.kind := rfl
 
 theorem labelOk_iff (g : GNFA σ α) (l : GLabel α) :
     g.LabelOk (some l) ↔ ¬ g.Malformed l ∧ l.verdict ≠ .lexerError := by
@@ -473,19 +495,19 @@ theorem rules_correct : (rules : RuleSys (GNFA σ α) Rule).Correct validate whe
     rcases Res.andThen_eq_error.mp h with h0 | ⟨ok0, h⟩
     · obtain ⟨hc, rfl⟩ := guardE_eq_error.mp h0
       refine ⟨.badInitial, by simpa [rules] using hc, rfl, ?_⟩
-      intro r' hr'; cases r' <;> simp [rules] at hr'
+      intro r' hr'; cases r' <;> simp [rules, Rule.stage] at hr'
     have n0 : ¬ rules.Violates g .badInitial := by
       have := guardE_eq_ok.mp ok0; simpa [rules] using this
     rcases Res.andThen_eq_error.mp h with h1 | ⟨ok1, h⟩
     · obtain ⟨hc, rfl⟩ := guardE_eq_error.mp h1
       refine ⟨.badFinal, by simpa [rules] using hc, rfl, ?_⟩
-      intro r' hr'; cases r' <;> simp [rules] at hr' <;> assumption
+      intro r' hr'; cases r' <;> simp [rules, Rule.stage] at hr' <;> assumption
     have n1 : ¬ rules.Violates g .badFinal := by
       have := guardE_eq_ok.mp ok1; simpa [rules] using this
     rcases Res.andThen_eq_error.mp h with h2 | ⟨ok2, h⟩
     · obtain ⟨hc, rfl⟩ := guardE_eq_error.mp h2
       refine ⟨.initialEqualsFinal, by simpa [rules] using hc, rfl, ?_⟩
-      intro r' hr'; cases r' <;> simp [rules] at hr' <;> assumption
+      intro r' hr'; cases r' <;> simp [rules, Rule.stage] at hr' <;> assumption
     have n2 : ¬ rules.Violates g .initialEqualsFinal := by
       have := guardE_eq_ok.mp ok2; simpa [rules] using this
     rcases Res.andThen_eq_error.mp h with h3 | ⟨ok3, h⟩
@@ -495,7 +517,7 @@ theorem rules_correct : (rules : RuleSys (GNFA σ α) Rule).Correct validate whe
         simp only [Bool.or_eq_false_iff, decide_eq_false_iff_not, ahas_eq_false'] at hc
         exact ⟨q, hq, hc.1, hc.2⟩
       refine ⟨.missingRow, hv, rfl, ?_⟩
-      intro r' hr'; cases r' <;> simp [rules] at hr' <;> assumption
+      intro r' hr'; cases r' <;> simp [rules, Rule.stage] at hr' <;> assumption
     have n3 : ¬ rules.Violates g .missingRow := by
       simp only [firstErr_eq_ok, guardE_eq_ok, Bool.or_eq_true, decide_eq_true_eq, ahas_iff'] at ok3
       simp only [rules, not_exists, not_and, Classical.not_not]
@@ -505,7 +527,7 @@ theorem rules_correct : (rules : RuleSys (GNFA σ α) Rule).Correct validate whe
     rcases Res.andThen_eq_error.mp h with h4 | ⟨ok4, h⟩
     · obtain ⟨kv, hkv, hrow⟩ := firstErr_eq_error h4
       have early : ∀ r' : Rule, (rules : RuleSys (GNFA σ α) Rule).stage r' < 4 → ¬ rules.Violates g r' := by
-        intro r' hr'; cases r' <;> simp [rules] at hr' <;> assumption
+        intro r' hr'; cases r' <;> simp [rules, Rule.stage] at hr' <;> assumption
       rcases Res.andThen_eq_error.mp hrow with hl | ⟨_, hrow⟩
       · obtain ⟨l, hl', hlab⟩ := firstErr_eq_error hl
         obtain ⟨l', rfl, (⟨hm, rfl⟩ | ⟨hm, rfl⟩)⟩ := validateLabel_error g l e hlab
@@ -530,7 +552,7 @@ theorem rules_correct : (rules : RuleSys (GNFA σ α) Rule).Correct validate whe
       simp only [firstErr_eq_ok, Res.andThen_eq_ok, validateLabel_eq_ok, validateEndStates_eq_ok,
         guardE_eq_ok, Bool.not_eq_true'] at wfrows
       intro r' hr'
-      cases r' <;> simp [rules] at hr' <;> try assumption
+      cases r' <;> simp [rules, Rule.stage] at hr' <;> try assumption
       all_goals simp only [rules, not_exists, not_and, Classical.not_not]
       · intro kv hkv l hl; exact ((labelOk_iff g l).mp ((wfrows kv hkv).1 _ hl)).1
       · intro kv hkv l hl; exact ((labelOk_iff g l).mp ((wfrows kv hkv).1 _ hl)).2
@@ -606,6 +628,9 @@ def rules : RuleSys (DPDA σ α γ) PdaRule where
     | .badInitialStackSymbol => d.initStack ∉ d.stackSyms
     | .badFinal => ∃ q ∈ d.finals, q ∉ d.states
     | .badAcceptanceMode => d.mode ∉ Gen.Validate.pdaAcceptanceModes
+
+theorem rules_stage : (rules : RuleSys (DPDA σ α γ) PdaRule).stage = PdaRule.stage := rfl
+theorem rules_kind : (rules : RuleSys (DPDA σ α γ) PdaRule).kind = PdaRule.kind := rfl
 
 theorem wf_iff (d : DPDA σ α γ) : d.WF ↔ ∀ r, ¬ rules.Violates d r := by
   constructor
@@ -683,7 +708,7 @@ theorem rules_correct : (rules : RuleSys (DPDA σ α γ) PdaRule).Correct valida
     · obtain ⟨kv, hkv, hrow⟩ := firstErr_eq_error h0
       have early : ∀ r' : PdaRule, (rules : RuleSys (DPDA σ α γ) PdaRule).stage r' < 0 →
           ¬ rules.Violates d r' := by
-        intro r' hr'; simp [rules] at hr'
+        intro r' hr'; simp [rules, PdaRule.stage] at hr'
       rcases validateRow_error d kv.2 e hrow with ⟨⟨en, hen, a, ha, hna⟩, rfl⟩ | ⟨hnd, rfl⟩ | ⟨⟨en, hen, g, hg, hng⟩, rfl⟩
       · exact ⟨.unknownInputSymbol, ⟨kv, hkv, en, hen, a, ha, hna⟩, rfl, early⟩
       · exact ⟨.nondeterministic, ⟨kv, hkv, hnd⟩, rfl, early⟩
@@ -730,6 +755,9 @@ def rules : RuleSys (NPDA σ α γ) PdaRule where
     | .badInitialStackSymbol => d.initStack ∉ d.stackSyms
     | .badFinal => ∃ q ∈ d.finals, q ∉ d.states
     | .badAcceptanceMode => d.mode ∉ Gen.Validate.pdaAcceptanceModes
+
+theorem rules_stage : (rules : RuleSys (NPDA σ α γ) PdaRule).stage = PdaRule.stage := rfl
+theorem rules_kind : (rules : RuleSys (NPDA σ α γ) PdaRule).kind = PdaRule.kind := rfl
 
 theorem wf_iff (d : NPDA σ α γ) : d.WF ↔ ∀ r, ¬ rules.Violates d r := by
   constructor
@@ -779,7 +807,7 @@ theorem rules_correct : (rules : RuleSys (NPDA σ α γ) PdaRule).Correct valida
     · obtain ⟨kv, hkv, hrow⟩ := firstErr_eq_error h0
       have early : ∀ r' : PdaRule, (rules : RuleSys (NPDA σ α γ) PdaRule).stage r' < 0 →
           ¬ rules.Violates d r' := by
-        intro r' hr'; simp [rules] at hr'
+        intro r' hr'; simp [rules, PdaRule.stage] at hr'
       rcases validateRow_error d kv.2 e hrow with ⟨⟨en, hen, a, ha, hna⟩, rfl⟩ | ⟨⟨en, hen, g, hg, hng⟩, rfl⟩
       · exact ⟨.unknownInputSymbol, ⟨kv, hkv, en, hen, a, ha, hna⟩, rfl, early⟩
       · exact ⟨.unknownStackSymbol, ⟨kv, hkv, en, hen, g, hg, hng⟩, rfl, early⟩
@@ -809,5 +837,695 @@ theorem rules_correct : (rules : RuleSys (NPDA σ α γ) PdaRule).Correct valida
       intro r' hr'; cases r' <;> simp [rules, PdaRule.stage] at hr' <;> assumption
 
 end NPDA
+
+/-! ## Turing machines -/
+
+inductive TmRule
+  | inputNotProperSubset | badBlank
+  | unknownTransitionState | badReadSymbol | unknownResultState | badWriteSymbol | badDirection
+  | badInitial | initialNoRow | initialIsFinal | badFinal | finalHasTransitions | badTapeCount
+  deriving DecidableEq, Repr
+
+def TmRule.kind : TmRule → Gen.Err
+  | .inputNotProperSubset => .missingSymbolError
+  | .badBlank => .invalidSymbolError
+  | .unknownTransitionState => .invalidStateError
+  | .badReadSymbol => .invalidSymbolError
+  | .unknownResultState => .invalidStateError
+  | .badWriteSymbol => .invalidSymbolError
+  | .badDirection => .invalidDirectionError
+  | .badInitial => .invalidStateError
+  | .initialNoRow => .missingStateError
+  | .initialIsFinal => .initialStateError
+  | .badFinal => .invalidStateError
+  | .finalHasTransitions => .finalStateError
+  | .badTapeCount => .inconsistentTapesException
+
+def TmRule.stage : TmRule → Nat
+  | .inputNotProperSubset => 0
+  | .badBlank => 1
+  | .unknownTransitionState => 2
+  | .badReadSymbol => 2
+  | .unknownResultState => 2
+  | .badWriteSymbol => 2
+  | .badDirection => 2
+  | .badInitial => 3
+  | .initialNoRow => 4
+  | .initialIsFinal => 5
+  | .badFinal => 6
+  | .finalHasTransitions => 7
+  | .badTapeCount => 8
+
+/-- `Σ ⊊ Γ`. -/
+def ProperSubset (syms tapeSyms : List γ) : Prop :=
+  (∀ a ∈ syms, a ∈ tapeSyms) ∧ ∃ s ∈ tapeSyms, s ∉ syms
+
+theorem tmValidateHead_error (syms tapeSyms : List γ) (blank : γ) (e : Exn)
+    (h : tmValidateHead syms tapeSyms blank = .error e) :
+    (¬ ProperSubset syms tapeSyms ∧ e = .lib .missingSymbolError) ∨
+    (ProperSubset syms tapeSyms ∧ blank ∉ tapeSyms ∧ e = .lib .invalidSymbolError) := by
+  unfold tmValidateHead at h
+  rcases Res.andThen_eq_error.mp h with h0 | ⟨ok0, h⟩
+  · obtain ⟨hc, rfl⟩ := guardE_eq_error.mp h0
+    left
+    refine ⟨?_, rfl⟩
+    rintro ⟨h1, h2⟩
+    have : (subsetB syms tapeSyms && !subsetB tapeSyms syms) = true := by
+      simp only [Bool.and_eq_true, subsetB_eq_true, Bool.not_eq_true', subsetB_eq_false]
+      exact ⟨h1, h2⟩
+    rw [this] at hc; cases hc
+  · obtain ⟨hc, rfl⟩ := guardE_eq_error.mp h
+    right
+    have := guardE_eq_ok.mp ok0
+    simp only [Bool.and_eq_true, subsetB_eq_true, Bool.not_eq_true', subsetB_eq_false] at this
+    exact ⟨this, by simpa using hc, rfl⟩
+
+theorem tmValidateResult_error (states : List σ) (tapeSyms : List γ) (dirs : List String)
+    (r : TMResult σ γ) (e : Exn) (h : tmValidateResult states tapeSyms dirs r = .error e) :
+    (r.1 ∉ states ∧ e = .lib .invalidStateError) ∨
+    (r.2.1 ∉ tapeSyms ∧ e = .lib .invalidSymbolError) ∨
+    (r.2.2 ∉ dirs ∧ e = .lib .invalidDirectionError) := by
+  unfold tmValidateResult at h
+  rcases Res.andThen_eq_error.mp h with h0 | ⟨_, h⟩
+  · obtain ⟨hc, rfl⟩ := guardE_eq_error.mp h0
+    exact Or.inl ⟨by simpa using hc, rfl⟩
+  rcases Res.andThen_eq_error.mp h with h1 | ⟨_, h⟩
+  · obtain ⟨hc, rfl⟩ := guardE_eq_error.mp h1
+    exact Or.inr (Or.inl ⟨by simpa using hc, rfl⟩)
+  · obtain ⟨hc, rfl⟩ := guardE_eq_error.mp h
+    exact Or.inr (Or.inr ⟨by simpa using hc, rfl⟩)
+
+theorem tmValidateTail_error (states keys : List σ) (init : σ) (finals : List σ) (e : Exn)
+    (h : tmValidateTail states keys init finals = .error e) :
+    (init ∉ states ∧ e = .lib .invalidStateError) ∨
+    (init ∈ states ∧ (init ∉ keys ∧ 1 < states.length) ∧ e = .lib .missingStateError) ∨
+    (init ∈ states ∧ (init ∈ keys ∨ states.length ≤ 1) ∧ init ∈ finals ∧ e = .lib .initialStateError) ∨
+    (init ∈ states ∧ (init ∈ keys ∨ states.length ≤ 1) ∧ init ∉ finals ∧ (∃ q ∈ finals, q ∉ states) ∧
+      e = .lib .invalidStateError) ∨
+    (init ∈ states ∧ (init ∈ keys ∨ states.length ≤ 1) ∧ init ∉ finals ∧ (∀ q ∈ finals, q ∈ states) ∧
+      (∃ f ∈ finals, f ∈ keys) ∧ e = .lib .finalStateError) := by
+  unfold tmValidateTail at h
+  rcases Res.andThen_eq_error.mp h with h0 | ⟨ok0, h⟩
+  · obtain ⟨hc, rfl⟩ := guardE_eq_error.mp h0
+    exact Or.inl ⟨by simpa using hc, rfl⟩
+  have p0 : init ∈ states := by simpa using guardE_eq_ok.mp ok0
+  rcases Res.andThen_eq_error.mp h with h1 | ⟨ok1, h⟩
+  · obtain ⟨hc, rfl⟩ := guardE_eq_error.mp h1
+    simp only [Bool.or_eq_false_iff, decide_eq_false_iff_not, Nat.not_le] at hc
+    exact Or.inr (Or.inl ⟨p0, hc, rfl⟩)
+  have p1 : init ∈ keys ∨ states.length ≤ 1 := by simpa using guardE_eq_ok.mp ok1
+  rcases Res.andThen_eq_error.mp h with h2 | ⟨ok2, h⟩
+  · obtain ⟨hc, rfl⟩ := guardE_eq_error.mp h2
+    exact Or.inr (Or.inr (Or.inl ⟨p0, p1, by simpa using hc, rfl⟩))
+  have p2 : init ∉ finals := by simpa using guardE_eq_ok.mp ok2
+  rcases Res.andThen_eq_error.mp h with h3 | ⟨ok3, h⟩
+  · obtain ⟨hc, rfl⟩ := guardE_eq_error.mp h3
+    exact Or.inr (Or.inr (Or.inr (Or.inl ⟨p0, p1, p2, subsetB_eq_false.mp hc, rfl⟩)))
+  have p3 : ∀ q ∈ finals, q ∈ states := subsetB_eq_true.mp (guardE_eq_ok.mp ok3)
+  obtain ⟨f, hf, hg⟩ := firstErr_eq_error h
+  obtain ⟨hc, rfl⟩ := guardE_eq_error.mp hg
+  exact Or.inr (Or.inr (Or.inr (Or.inr ⟨p0, p1, p2, p3, ⟨f, hf, by simpa using hc⟩, rfl⟩)))
+
+theorem not_initialNoRow {keys states : List σ} {init : σ} (p : init ∈ keys ∨ states.length ≤ 1) :
+    ¬ (init ∉ keys ∧ 1 < states.length) := by
+  rintro ⟨h1, h2⟩
+  rcases p with p | p
+  · exact h1 p
+  · omega
+
+
+namespace DTM
+
+/-- The symbols a row reads and the results it lists. -/
+def rowReads (kv : σ × List (γ × TMResult σ γ)) : List γ := akeys kv.2
+def rowResults (kv : σ × List (γ × TMResult σ γ)) : List (TMResult σ γ) := avals kv.2
+
+def rules : RuleSys (DTM σ γ) TmRule where
+  kind := TmRule.kind
+  stage := TmRule.stage
+  Violates d
+    | .inputNotProperSubset => ¬ ProperSubset d.syms d.tapeSyms
+    | .badBlank => d.blank ∉ d.tapeSyms
+    | .unknownTransitionState => ∃ kv ∈ d.trans, kv.1 ∉ d.states
+    | .badReadSymbol => ∃ kv ∈ d.trans, ∃ s ∈ rowReads kv, s ∉ d.tapeSyms
+    | .unknownResultState => ∃ kv ∈ d.trans, ∃ r ∈ rowResults kv, r.1 ∉ d.states
+    | .badWriteSymbol => ∃ kv ∈ d.trans, ∃ r ∈ rowResults kv, r.2.1 ∉ d.tapeSyms
+    | .badDirection => ∃ kv ∈ d.trans, ∃ r ∈ rowResults kv, r.2.2 ∉ Gen.Validate.dtmDirections
+    | .badInitial => d.init ∉ d.states
+    | .initialNoRow => d.init ∉ akeys d.trans ∧ 1 < d.states.length
+    | .initialIsFinal => d.init ∈ d.finals
+    | .badFinal => ∃ q ∈ d.finals, q ∉ d.states
+    | .finalHasTransitions => ∃ f ∈ d.finals, f ∈ akeys d.trans
+    | .badTapeCount => False
+
+theorem rules_stage : (rules : RuleSys (DTM σ γ) TmRule).stage = TmRule.stage := rfl
+theorem rules_kind : (rules : RuleSys (DTM σ γ) TmRule).kind = TmRule.kind := rfl
+
+theorem validateRow_error (d : DTM σ γ) (kv : σ × List (γ × TMResult σ γ)) (e : Exn)
+    (h : d.validateRow kv = .error e) :
+    (kv.1 ∉ d.states ∧ e = .lib .invalidStateError) ∨
+    ((∃ s ∈ rowReads kv, s ∉ d.tapeSyms) ∧ e = .lib .invalidSymbolError) ∨
+    ((∃ r ∈ rowResults kv, r.1 ∉ d.states) ∧ e = .lib .invalidStateError) ∨
+    ((∃ r ∈ rowResults kv, r.2.1 ∉ d.tapeSyms) ∧ e = .lib .invalidSymbolError) ∨
+    ((∃ r ∈ rowResults kv, r.2.2 ∉ Gen.Validate.dtmDirections) ∧ e = .lib .invalidDirectionError) := by
+  unfold validateRow at h
+  rcases Res.andThen_eq_error.mp h with h0 | ⟨_, h⟩
+  · obtain ⟨hc, rfl⟩ := guardE_eq_error.mp h0
+    exact Or.inl ⟨by simpa using hc, rfl⟩
+  rcases Res.andThen_eq_error.mp h with h1 | ⟨_, h⟩
+  · obtain ⟨s, hs, hg⟩ := firstErr_eq_error h1
+    obtain ⟨hc, rfl⟩ := guardE_eq_error.mp hg
+    exact Or.inr (Or.inl ⟨⟨s, hs, by simpa using hc⟩, rfl⟩)
+  · right; right
+    obtain ⟨r, hr, hg⟩ := firstErr_eq_error h
+    rcases tmValidateResult_error _ _ _ r e hg with ⟨a, rfl⟩ | ⟨a, rfl⟩ | ⟨a, rfl⟩
+    · exact Or.inl ⟨⟨r, hr, a⟩, rfl⟩
+    · exact Or.inr (Or.inl ⟨⟨r, hr, a⟩, rfl⟩)
+    · exact Or.inr (Or.inr ⟨⟨r, hr, a⟩, rfl⟩)
+
+theorem row_ok (d : DTM σ γ) (kv : σ × List (γ × TMResult σ γ)) (h : d.validateRow kv = .ok ()) :
+    kv.1 ∈ d.states ∧ (∀ s ∈ rowReads kv, s ∈ d.tapeSyms) ∧
+      ∀ r ∈ rowResults kv, TmResultOk d.states d.tapeSyms Gen.Validate.dtmDirections r := by
+  unfold validateRow at h
+  simp only [Res.andThen_eq_ok, firstErr_eq_ok, guardE_eq_ok, decide_eq_true_eq,
+    tmValidateResult_eq_ok] at h
+  exact h
+
+theorem wf_iff (d : DTM σ γ) : d.WF ↔ ∀ r, ¬ rules.Violates d r := by
+  constructor
+  · intro wf r
+    cases r <;> simp only [rules, not_exists, not_and, Classical.not_not, not_false_eq_true]
+    · exact ⟨wf.head.subset, wf.head.proper⟩
+    · exact wf.head.blankOk
+    · exact wf.keysOk
+    · exact wf.readOk
+    · intro kv hkv r hr; exact (wf.resultsOk kv hkv r hr).1
+    · intro kv hkv r hr; exact (wf.resultsOk kv hkv r hr).2.1
+    · intro kv hkv r hr; exact (wf.resultsOk kv hkv r hr).2.2
+    · exact wf.tail.initOk
+    · exact fun h1 => by
+        rcases wf.tail.initRow with h' | h'
+        · exact absurd h' h1
+        · omega
+    · exact wf.tail.initNotFinal
+    · exact wf.tail.finalsOk
+    · exact wf.tail.finalsNoRow
+
+  · intro h
+    have hps : ProperSubset d.syms d.tapeSyms := by simpa [rules] using h .inputNotProperSubset
+    have hst : ∀ kv ∈ d.trans, ∀ r ∈ rowResults kv, r.1 ∈ d.states := by
+      simpa [rules] using h .unknownResultState
+    have hwr : ∀ kv ∈ d.trans, ∀ r ∈ rowResults kv, r.2.1 ∈ d.tapeSyms := by
+      simpa [rules] using h .badWriteSymbol
+    have hdr : ∀ kv ∈ d.trans, ∀ r ∈ rowResults kv, r.2.2 ∈ Gen.Validate.dtmDirections := by
+      simpa [rules] using h .badDirection
+    have hrd : ∀ kv ∈ d.trans, ∀ s ∈ rowReads kv, s ∈ d.tapeSyms := by
+      simpa [rules] using h .badReadSymbol
+    have hnr := h .initialNoRow
+    simp only [rules, not_and, Nat.not_lt] at hnr
+    refine ⟨?_, ?_, ?_, ?_, ?_⟩
+    · exact ⟨hps.1, hps.2, by simpa [rules] using h .badBlank⟩
+    · simpa [rules] using h .unknownTransitionState
+    · exact hrd
+    · intro kv hkv r hr; exact ⟨hst kv hkv r hr, hwr kv hkv r hr, hdr kv hkv r hr⟩
+    · refine ⟨by simpa [rules] using h .badInitial, ?_, by simpa [rules] using h .initialIsFinal,
+        by simpa [rules] using h .badFinal, by simpa [rules] using h .finalHasTransitions⟩
+      by_cases hk : d.init ∈ akeys d.trans
+      · exact Or.inl hk
+      · exact Or.inr (hnr hk)
+
+
+theorem rules_correct : (rules : RuleSys (DTM σ γ) TmRule).Correct validate where
+  ok_iff d := (validate_eq_ok d).trans (wf_iff d)
+  error_kind d e h := by
+    unfold validate at h
+    rcases Res.andThen_eq_error.mp h with h0 | ⟨ok0, h⟩
+    · rcases tmValidateHead_error _ _ _ e h0 with ⟨a, rfl⟩ | ⟨p, a, rfl⟩
+      · refine ⟨.inputNotProperSubset, a, rfl, ?_⟩
+        intro r' hr'; rw [rules_stage] at hr'; cases r' <;> exact absurd hr' (by decide)
+      · have nP : ¬ rules.Violates d .inputNotProperSubset := fun h => h p
+        refine ⟨.badBlank, a, rfl, ?_⟩
+        intro r' hr'; rw [rules_stage] at hr'; cases r' <;> first | assumption | exact absurd hr' (by decide)
+    have hh := (tmValidateHead_eq_ok _ _ _).mp ok0
+    have nP : ¬ rules.Violates d .inputNotProperSubset := fun h => h ⟨hh.subset, hh.proper⟩
+    have nB : ¬ rules.Violates d .badBlank := fun h => h hh.blankOk
+    rcases Res.andThen_eq_error.mp h with h1 | ⟨ok1, h⟩
+    · obtain ⟨kv, hkv, hrow⟩ := firstErr_eq_error h1
+      have early : ∀ r' : TmRule, (rules : RuleSys (DTM σ γ) TmRule).stage r' < 2 →
+          ¬ rules.Violates d r' := by
+        intro r' hr'; rw [rules_stage] at hr'; cases r' <;> first | assumption | exact absurd hr' (by decide)
+      rcases validateRow_error d kv e hrow with ⟨a, rfl⟩ | ⟨a, rfl⟩ | ⟨a, rfl⟩ | ⟨a, rfl⟩ | ⟨a, rfl⟩
+      · exact ⟨.unknownTransitionState, ⟨kv, hkv, a⟩, rfl, early⟩
+      · exact ⟨.badReadSymbol, ⟨kv, hkv, a⟩, rfl, early⟩
+      · exact ⟨.unknownResultState, ⟨kv, hkv, a⟩, rfl, early⟩
+      · exact ⟨.badWriteSymbol, ⟨kv, hkv, a⟩, rfl, early⟩
+      · exact ⟨.badDirection, ⟨kv, hkv, a⟩, rfl, early⟩
+    have rows := fun kv hkv => row_ok d kv ((firstErr_eq_ok _ _).mp ok1 kv hkv)
+    have nR1 : ¬ rules.Violates d .unknownTransitionState := by
+      simp only [rules, not_exists, not_and, Classical.not_not]
+      intro kv hkv; exact (rows kv hkv).1
+    have nR2 : ¬ rules.Violates d .badReadSymbol := by
+      simp only [rules, not_exists, not_and, Classical.not_not]
+      intro kv hkv s hs; exact (rows kv hkv).2.1 s hs
+    have nR3 : ¬ rules.Violates d .unknownResultState := by
+      simp only [rules, not_exists, not_and, Classical.not_not]
+      intro kv hkv r hr; exact ((rows kv hkv).2.2 r hr).1
+    have nR4 : ¬ rules.Violates d .badWriteSymbol := by
+      simp only [rules, not_exists, not_and, Classical.not_not]
+      intro kv hkv r hr; exact ((rows kv hkv).2.2 r hr).2.1
+    have nR5 : ¬ rules.Violates d .badDirection := by
+      simp only [rules, not_exists, not_and, Classical.not_not]
+      intro kv hkv r hr; exact ((rows kv hkv).2.2 r hr).2.2
+    rcases tmValidateTail_error _ _ _ _ e h with ⟨a, rfl⟩ | ⟨p0, a, rfl⟩ | ⟨p0, p1, a, rfl⟩ | ⟨p0, p1, p2, a, rfl⟩ | ⟨p0, p1, p2, p3, a, rfl⟩
+    · refine ⟨.badInitial, a, rfl, ?_⟩
+      intro r' hr'; rw [rules_stage] at hr'; cases r' <;> first | assumption | exact absurd hr' (by decide)
+    · have nI : ¬ rules.Violates d .badInitial := fun h => h p0
+      refine ⟨.initialNoRow, a, rfl, ?_⟩
+      intro r' hr'; rw [rules_stage] at hr'; cases r' <;> first | assumption | exact absurd hr' (by decide)
+    · have nI : ¬ rules.Violates d .badInitial := fun h => h p0
+      have nN : ¬ rules.Violates d .initialNoRow := not_initialNoRow p1
+      refine ⟨.initialIsFinal, a, rfl, ?_⟩
+      intro r' hr'; rw [rules_stage] at hr'; cases r' <;> first | assumption | exact absurd hr' (by decide)
+    · have nI : ¬ rules.Violates d .badInitial := fun h => h p0
+      have nN : ¬ rules.Violates d .initialNoRow := not_initialNoRow p1
+      have nF : ¬ rules.Violates d .initialIsFinal := fun h => p2 h
+      refine ⟨.badFinal, a, rfl, ?_⟩
+      intro r' hr'; rw [rules_stage] at hr'; cases r' <;> first | assumption | exact absurd hr' (by decide)
+    · have nI : ¬ rules.Violates d .badInitial := fun h => h p0
+      have nN : ¬ rules.Violates d .initialNoRow := not_initialNoRow p1
+      have nF : ¬ rules.Violates d .initialIsFinal := fun h => p2 h
+      have nG : ¬ rules.Violates d .badFinal := by
+        simp only [rules, not_exists, not_and, Classical.not_not]; exact p3
+      refine ⟨.finalHasTransitions, a, rfl, ?_⟩
+      intro r' hr'; rw [rules_stage] at hr'; cases r' <;> first | assumption | exact absurd hr' (by decide)
+
+
+end DTM
+
+namespace NTM
+
+/-- The symbols a row reads and the results it lists. -/
+def rowReads (kv : σ × List (γ × List (TMResult σ γ))) : List γ := akeys kv.2
+def rowResults (kv : σ × List (γ × List (TMResult σ γ))) : List (TMResult σ γ) :=
+  (avals kv.2).flatMap id
+
+def rules : RuleSys (NTM σ γ) TmRule where
+  kind := TmRule.kind
+  stage := TmRule.stage
+  Violates d
+    | .inputNotProperSubset => ¬ ProperSubset d.syms d.tapeSyms
+    | .badBlank => d.blank ∉ d.tapeSyms
+    | .unknownTransitionState => ∃ kv ∈ d.trans, kv.1 ∉ d.states
+    | .badReadSymbol => ∃ kv ∈ d.trans, ∃ s ∈ rowReads kv, s ∉ d.tapeSyms
+    | .unknownResultState => ∃ kv ∈ d.trans, ∃ r ∈ rowResults kv, r.1 ∉ d.states
+    | .badWriteSymbol => ∃ kv ∈ d.trans, ∃ r ∈ rowResults kv, r.2.1 ∉ d.tapeSyms
+    | .badDirection => ∃ kv ∈ d.trans, ∃ r ∈ rowResults kv, r.2.2 ∉ Gen.Validate.ntmDirections
+    | .badInitial => d.init ∉ d.states
+    | .initialNoRow => d.init ∉ akeys d.trans ∧ 1 < d.states.length
+    | .initialIsFinal => d.init ∈ d.finals
+    | .badFinal => ∃ q ∈ d.finals, q ∉ d.states
+    | .finalHasTransitions => ∃ f ∈ d.finals, f ∈ akeys d.trans
+    | .badTapeCount => False
+
+theorem rules_stage : (rules : RuleSys (NTM σ γ) TmRule).stage = TmRule.stage := rfl
+theorem rules_kind : (rules : RuleSys (NTM σ γ) TmRule).kind = TmRule.kind := rfl
+
+theorem validateRow_error (d : NTM σ γ) (kv : σ × List (γ × List (TMResult σ γ))) (e : Exn)
+    (h : d.validateRow kv = .error e) :
+    (kv.1 ∉ d.states ∧ e = .lib .invalidStateError) ∨
+    ((∃ s ∈ rowReads kv, s ∉ d.tapeSyms) ∧ e = .lib .invalidSymbolError) ∨
+    ((∃ r ∈ rowResults kv, r.1 ∉ d.states) ∧ e = .lib .invalidStateError) ∨
+    ((∃ r ∈ rowResults kv, r.2.1 ∉ d.tapeSyms) ∧ e = .lib .invalidSymbolError) ∨
+    ((∃ r ∈ rowResults kv, r.2.2 ∉ Gen.Validate.ntmDirections) ∧ e = .lib .invalidDirectionError) := by
+  unfold validateRow at h
+  rcases Res.andThen_eq_error.mp h with h0 | ⟨_, h⟩
+  · obtain ⟨hc, rfl⟩ := guardE_eq_error.mp h0
+    exact Or.inl ⟨by simpa using hc, rfl⟩
+  rcases Res.andThen_eq_error.mp h with h1 | ⟨_, h⟩
+  · obtain ⟨s, hs, hg⟩ := firstErr_eq_error h1
+    obtain ⟨hc, rfl⟩ := guardE_eq_error.mp hg
+    exact Or.inr (Or.inl ⟨⟨s, hs, by simpa using hc⟩, rfl⟩)
+  · right; right
+    obtain ⟨rs, hrs, hg⟩ := firstErr_eq_error h
+    obtain ⟨r, hr, hg⟩ := firstErr_eq_error hg
+    have hmem : r ∈ rowResults kv := List.mem_flatMap.mpr ⟨rs, hrs, hr⟩
+    rcases tmValidateResult_error _ _ _ r e hg with ⟨a, rfl⟩ | ⟨a, rfl⟩ | ⟨a, rfl⟩
+    · exact Or.inl ⟨⟨r, hmem, a⟩, rfl⟩
+    · exact Or.inr (Or.inl ⟨⟨r, hmem, a⟩, rfl⟩)
+    · exact Or.inr (Or.inr ⟨⟨r, hmem, a⟩, rfl⟩)
+
+theorem row_ok (d : NTM σ γ) (kv : σ × List (γ × List (TMResult σ γ))) (h : d.validateRow kv = .ok ()) :
+    kv.1 ∈ d.states ∧ (∀ s ∈ rowReads kv, s ∈ d.tapeSyms) ∧
+      ∀ r ∈ rowResults kv, TmResultOk d.states d.tapeSyms Gen.Validate.ntmDirections r := by
+  unfold validateRow at h
+  simp only [Res.andThen_eq_ok, firstErr_eq_ok, guardE_eq_ok, decide_eq_true_eq,
+    tmValidateResult_eq_ok] at h
+  refine ⟨h.1, h.2.1, ?_⟩
+  intro r hr
+  obtain ⟨rs, hrs, hr'⟩ := List.mem_flatMap.mp hr
+  exact h.2.2 rs hrs r hr'
+
+theorem wf_iff (d : NTM σ γ) : d.WF ↔ ∀ r, ¬ rules.Violates d r := by
+  constructor
+  · intro wf r
+    cases r <;> simp only [rules, not_exists, not_and, Classical.not_not, not_false_eq_true]
+    · exact ⟨wf.head.subset, wf.head.proper⟩
+    · exact wf.head.blankOk
+    · exact wf.keysOk
+    · exact wf.readOk
+    · intro kv hkv r hr; exact ((by obtain ⟨rs, hrs, hr'⟩ := List.mem_flatMap.mp hr; exact wf.resultsOk kv hkv rs hrs r hr' : TmResultOk d.states d.tapeSyms Gen.Validate.ntmDirections r)).1
+    · intro kv hkv r hr; exact ((by obtain ⟨rs, hrs, hr'⟩ := List.mem_flatMap.mp hr; exact wf.resultsOk kv hkv rs hrs r hr' : TmResultOk d.states d.tapeSyms Gen.Validate.ntmDirections r)).2.1
+    · intro kv hkv r hr; exact ((by obtain ⟨rs, hrs, hr'⟩ := List.mem_flatMap.mp hr; exact wf.resultsOk kv hkv rs hrs r hr' : TmResultOk d.states d.tapeSyms Gen.Validate.ntmDirections r)).2.2
+    · exact wf.tail.initOk
+    · exact fun h1 => by
+        rcases wf.tail.initRow with h' | h'
+        · exact absurd h' h1
+        · omega
+    · exact wf.tail.initNotFinal
+    · exact wf.tail.finalsOk
+    · exact wf.tail.finalsNoRow
+
+  · intro h
+    have hps : ProperSubset d.syms d.tapeSyms := by simpa [rules] using h .inputNotProperSubset
+    have hst : ∀ kv ∈ d.trans, ∀ r ∈ rowResults kv, r.1 ∈ d.states := by
+      simpa [rules] using h .unknownResultState
+    have hwr : ∀ kv ∈ d.trans, ∀ r ∈ rowResults kv, r.2.1 ∈ d.tapeSyms := by
+      simpa [rules] using h .badWriteSymbol
+    have hdr : ∀ kv ∈ d.trans, ∀ r ∈ rowResults kv, r.2.2 ∈ Gen.Validate.ntmDirections := by
+      simpa [rules] using h .badDirection
+    have hrd : ∀ kv ∈ d.trans, ∀ s ∈ rowReads kv, s ∈ d.tapeSyms := by
+      simpa [rules] using h .badReadSymbol
+    have hnr := h .initialNoRow
+    simp only [rules, not_and, Nat.not_lt] at hnr
+    refine ⟨?_, ?_, ?_, ?_, ?_⟩
+    · exact ⟨hps.1, hps.2, by simpa [rules] using h .badBlank⟩
+    · simpa [rules] using h .unknownTransitionState
+    · exact hrd
+    · intro kv hkv rs hrs r hr
+      have hmem : r ∈ rowResults kv := List.mem_flatMap.mpr ⟨rs, hrs, hr⟩
+      exact ⟨hst kv hkv r hmem, hwr kv hkv r hmem, hdr kv hkv r hmem⟩
+    · refine ⟨by simpa [rules] using h .badInitial, ?_, by simpa [rules] using h .initialIsFinal,
+        by simpa [rules] using h .badFinal, by simpa [rules] using h .finalHasTransitions⟩
+      by_cases hk : d.init ∈ akeys d.trans
+      · exact Or.inl hk
+      · exact Or.inr (hnr hk)
+
+
+theorem rules_correct : (rules : RuleSys (NTM σ γ) TmRule).Correct validate where
+  ok_iff d := (validate_eq_ok d).trans (wf_iff d)
+  error_kind d e h := by
+    unfold validate at h
+    rcases Res.andThen_eq_error.mp h with h0 | ⟨ok0, h⟩
+    · rcases tmValidateHead_error _ _ _ e h0 with ⟨a, rfl⟩ | ⟨p, a, rfl⟩
+      · refine ⟨.inputNotProperSubset, a, rfl, ?_⟩
+        intro r' hr'; rw [rules_stage] at hr'; cases r' <;> exact absurd hr' (by decide)
+      · have nP : ¬ rules.Violates d .inputNotProperSubset := fun h => h p
+        refine ⟨.badBlank, a, rfl, ?_⟩
+        intro r' hr'; rw [rules_stage] at hr'; cases r' <;> first | assumption | exact absurd hr' (by decide)
+    have hh := (tmValidateHead_eq_ok _ _ _).mp ok0
+    have nP : ¬ rules.Violates d .inputNotProperSubset := fun h => h ⟨hh.subset, hh.proper⟩
+    have nB : ¬ rules.Violates d .badBlank := fun h => h hh.blankOk
+    rcases Res.andThen_eq_error.mp h with h1 | ⟨ok1, h⟩
+    · obtain ⟨kv, hkv, hrow⟩ := firstErr_eq_error h1
+      have early : ∀ r' : TmRule, (rules : RuleSys (NTM σ γ) TmRule).stage r' < 2 →
+          ¬ rules.Violates d r' := by
+        intro r' hr'; rw [rules_stage] at hr'; cases r' <;> first | assumption | exact absurd hr' (by decide)
+      rcases validateRow_error d kv e hrow with ⟨a, rfl⟩ | ⟨a, rfl⟩ | ⟨a, rfl⟩ | ⟨a, rfl⟩ | ⟨a, rfl⟩
+      · exact ⟨.unknownTransitionState, ⟨kv, hkv, a⟩, rfl, early⟩
+      · exact ⟨.badReadSymbol, ⟨kv, hkv, a⟩, rfl, early⟩
+      · exact ⟨.unknownResultState, ⟨kv, hkv, a⟩, rfl, early⟩
+      · exact ⟨.badWriteSymbol, ⟨kv, hkv, a⟩, rfl, early⟩
+      · exact ⟨.badDirection, ⟨kv, hkv, a⟩, rfl, early⟩
+    have rows := fun kv hkv => row_ok d kv ((firstErr_eq_ok _ _).mp ok1 kv hkv)
+    have nR1 : ¬ rules.Violates d .unknownTransitionState := by
+      simp only [rules, not_exists, not_and, Classical.not_not]
+      intro kv hkv; exact (rows kv hkv).1
+    have nR2 : ¬ rules.Violates d .badReadSymbol := by
+      simp only [rules, not_exists, not_and, Classical.not_not]
+      intro kv hkv s hs; exact (rows kv hkv).2.1 s hs
+    have nR3 : ¬ rules.Violates d .unknownResultState := by
+      simp only [rules, not_exists, not_and, Classical.not_not]
+      intro kv hkv r hr; exact ((rows kv hkv).2.2 r hr).1
+    have nR4 : ¬ rules.Violates d .badWriteSymbol := by
+      simp only [rules, not_exists, not_and, Classical.not_not]
+      intro kv hkv r hr; exact ((rows kv hkv).2.2 r hr).2.1
+    have nR5 : ¬ rules.Violates d .badDirection := by
+      simp only [rules, not_exists, not_and, Classical.not_not]
+      intro kv hkv r hr; exact ((rows kv hkv).2.2 r hr).2.2
+    rcases tmValidateTail_error _ _ _ _ e h with ⟨a, rfl⟩ | ⟨p0, a, rfl⟩ | ⟨p0, p1, a, rfl⟩ | ⟨p0, p1, p2, a, rfl⟩ | ⟨p0, p1, p2, p3, a, rfl⟩
+    · refine ⟨.badInitial, a, rfl, ?_⟩
+      intro r' hr'; rw [rules_stage] at hr'; cases r' <;> first | assumption | exact absurd hr' (by decide)
+    · have nI : ¬ rules.Violates d .badInitial := fun h => h p0
+      refine ⟨.initialNoRow, a, rfl, ?_⟩
+      intro r' hr'; rw [rules_stage] at hr'; cases r' <;> first | assumption | exact absurd hr' (by decide)
+    · have nI : ¬ rules.Violates d .badInitial := fun h => h p0
+      have nN : ¬ rules.Violates d .initialNoRow := not_initialNoRow p1
+      refine ⟨.initialIsFinal, a, rfl, ?_⟩
+      intro r' hr'; rw [rules_stage] at hr'; cases r' <;> first | assumption | exact absurd hr' (by decide)
+    · have nI : ¬ rules.Violates d .badInitial := fun h => h p0
+      have nN : ¬ rules.Violates d .initialNoRow := not_initialNoRow p1
+      have nF : ¬ rules.Violates d .initialIsFinal := fun h => p2 h
+      refine ⟨.badFinal, a, rfl, ?_⟩
+      intro r' hr'; rw [rules_stage] at hr'; cases r' <;> first | assumption | exact absurd hr' (by decide)
+    · have nI : ¬ rules.Violates d .badInitial := fun h => h p0
+      have nN : ¬ rules.Violates d .initialNoRow := not_initialNoRow p1
+      have nF : ¬ rules.Violates d .initialIsFinal := fun h => p2 h
+      have nG : ¬ rules.Violates d .badFinal := by
+        simp only [rules, not_exists, not_and, Classical.not_not]; exact p3
+      refine ⟨.finalHasTransitions, a, rfl, ?_⟩
+      intro r' hr'; rw [rules_stage] at hr'; cases r' <;> first | assumption | exact absurd hr' (by decide)
+
+
+end NTM
+
+namespace MNTM
+
+/-- The symbols a row reads (every component of every read tuple) and the results it
+lists: one `(state, symbol, direction)` per move of every transition, as the code checks them. -/
+def rowReads (kv : σ × List (List γ × List (σ × List (γ × String)))) : List γ :=
+  (akeys kv.2).flatMap id
+def rowResults (kv : σ × List (List γ × List (σ × List (γ × String)))) : List (TMResult σ γ) :=
+  (avals kv.2).flatMap fun rs => rs.flatMap fun r => r.2.map fun mv => (r.1, mv.1, mv.2)
+
+theorem mem_rowResults {kv : σ × List (List γ × List (σ × List (γ × String)))} {x : TMResult σ γ} :
+    x ∈ rowResults kv ↔ ∃ rs ∈ avals kv.2, ∃ r ∈ rs, ∃ mv ∈ r.2, x = (r.1, mv.1, mv.2) := by
+  unfold rowResults
+  simp only [List.mem_flatMap, List.mem_map]
+  constructor
+  · rintro ⟨rs, hrs, r, hr, mv, hmv, rfl⟩; exact ⟨rs, hrs, r, hr, mv, hmv, rfl⟩
+  · rintro ⟨rs, hrs, r, hr, mv, hmv, rfl⟩; exact ⟨rs, hrs, r, hr, mv, hmv, rfl⟩
+
+def rules : RuleSys (MNTM σ γ) TmRule where
+  kind := TmRule.kind
+  stage := TmRule.stage
+  Violates d
+    | .inputNotProperSubset => ¬ ProperSubset d.syms d.tapeSyms
+    | .badBlank => d.blank ∉ d.tapeSyms
+    | .unknownTransitionState => ∃ kv ∈ d.trans, kv.1 ∉ d.states
+    | .badReadSymbol => ∃ kv ∈ d.trans, ∃ s ∈ rowReads kv, s ∉ d.tapeSyms
+    | .unknownResultState => ∃ kv ∈ d.trans, ∃ r ∈ rowResults kv, r.1 ∉ d.states
+    | .badWriteSymbol => ∃ kv ∈ d.trans, ∃ r ∈ rowResults kv, r.2.1 ∉ d.tapeSyms
+    | .badDirection => ∃ kv ∈ d.trans, ∃ r ∈ rowResults kv, r.2.2 ∉ Gen.Validate.ntmDirections
+    | .badInitial => d.init ∉ d.states
+    | .initialNoRow => d.init ∉ akeys d.trans ∧ 1 < d.states.length
+    | .initialIsFinal => d.init ∈ d.finals
+    | .badFinal => ∃ q ∈ d.finals, q ∉ d.states
+    | .finalHasTransitions => ∃ f ∈ d.finals, f ∈ akeys d.trans
+    | .badTapeCount => (∃ kv ∈ d.trans, ∃ e ∈ kv.2, (e.1.length : Int) ≠ d.nTapes) ∨
+        (∃ kv ∈ d.trans, ∃ e ∈ kv.2, ∃ r ∈ e.2, (r.2.length : Int) ≠ d.nTapes)
+
+theorem rules_stage : (rules : RuleSys (MNTM σ γ) TmRule).stage = TmRule.stage := rfl
+theorem rules_kind : (rules : RuleSys (MNTM σ γ) TmRule).kind = TmRule.kind := rfl
+
+theorem validateRow_error (d : MNTM σ γ) (kv : σ × List (List γ × List (σ × List (γ × String)))) (e : Exn)
+    (h : d.validateRow kv = .error e) :
+    (kv.1 ∉ d.states ∧ e = .lib .invalidStateError) ∨
+    ((∃ s ∈ rowReads kv, s ∉ d.tapeSyms) ∧ e = .lib .invalidSymbolError) ∨
+    ((∃ r ∈ rowResults kv, r.1 ∉ d.states) ∧ e = .lib .invalidStateError) ∨
+    ((∃ r ∈ rowResults kv, r.2.1 ∉ d.tapeSyms) ∧ e = .lib .invalidSymbolError) ∨
+    ((∃ r ∈ rowResults kv, r.2.2 ∉ Gen.Validate.ntmDirections) ∧ e = .lib .invalidDirectionError) := by
+  unfold validateRow at h
+  rcases Res.andThen_eq_error.mp h with h0 | ⟨_, h⟩
+  · obtain ⟨hc, rfl⟩ := guardE_eq_error.mp h0
+    exact Or.inl ⟨by simpa using hc, rfl⟩
+  rcases Res.andThen_eq_error.mp h with h1 | ⟨_, h⟩
+  · obtain ⟨s, hs, hg⟩ := firstErr_eq_error h1
+    obtain ⟨hc, rfl⟩ := guardE_eq_error.mp hg
+    exact Or.inr (Or.inl ⟨⟨s, hs, by simpa using hc⟩, rfl⟩)
+  · right; right
+    obtain ⟨rs, hrs, hg⟩ := firstErr_eq_error h
+    obtain ⟨r, hr, hg⟩ := firstErr_eq_error hg
+    obtain ⟨mv, hmv, hg⟩ := firstErr_eq_error hg
+    have hmem : (r.1, mv.1, mv.2) ∈ rowResults kv := mem_rowResults.mpr ⟨rs, hrs, r, hr, mv, hmv, rfl⟩
+    rcases tmValidateResult_error _ _ _ _ e hg with ⟨a, rfl⟩ | ⟨a, rfl⟩ | ⟨a, rfl⟩
+    · exact Or.inl ⟨⟨_, hmem, a⟩, rfl⟩
+    · exact Or.inr (Or.inl ⟨⟨_, hmem, a⟩, rfl⟩)
+    · exact Or.inr (Or.inr ⟨⟨_, hmem, a⟩, rfl⟩)
+
+theorem row_ok (d : MNTM σ γ) (kv : σ × List (List γ × List (σ × List (γ × String)))) (h : d.validateRow kv = .ok ()) :
+    kv.1 ∈ d.states ∧ (∀ s ∈ rowReads kv, s ∈ d.tapeSyms) ∧
+      ∀ r ∈ rowResults kv, TmResultOk d.states d.tapeSyms Gen.Validate.ntmDirections r := by
+  unfold validateRow at h
+  simp only [Res.andThen_eq_ok, firstErr_eq_ok, guardE_eq_ok, decide_eq_true_eq,
+    tmValidateResult_eq_ok] at h
+  refine ⟨h.1, ?_, ?_⟩
+  · intro s hs
+    exact h.2.1 s hs
+  · intro x hx
+    obtain ⟨rs, hrs, r, hr, mv, hmv, rfl⟩ := mem_rowResults.mp hx
+    exact h.2.2 rs hrs r hr mv hmv
+
+theorem wf_iff (d : MNTM σ γ) : d.WF ↔ ∀ r, ¬ rules.Violates d r := by
+  constructor
+  · intro wf r
+    cases r <;> simp only [rules, not_exists, not_and, Classical.not_not, not_false_eq_true]
+    · exact ⟨wf.head.subset, wf.head.proper⟩
+    · exact wf.head.blankOk
+    · exact wf.keysOk
+    · intro kv hkv s hs
+      obtain ⟨rd, hrd, hs'⟩ := List.mem_flatMap.mp hs
+      exact wf.readOk kv hkv rd hrd s hs'
+    · intro kv hkv r hr; exact ((by obtain ⟨rs, hrs, r0, hr0, mv, hmv, rfl⟩ := mem_rowResults.mp hr; exact wf.resultsOk kv hkv rs hrs r0 hr0 mv hmv : TmResultOk d.states d.tapeSyms Gen.Validate.ntmDirections r)).1
+    · intro kv hkv r hr; exact ((by obtain ⟨rs, hrs, r0, hr0, mv, hmv, rfl⟩ := mem_rowResults.mp hr; exact wf.resultsOk kv hkv rs hrs r0 hr0 mv hmv : TmResultOk d.states d.tapeSyms Gen.Validate.ntmDirections r)).2.1
+    · intro kv hkv r hr; exact ((by obtain ⟨rs, hrs, r0, hr0, mv, hmv, rfl⟩ := mem_rowResults.mp hr; exact wf.resultsOk kv hkv rs hrs r0 hr0 mv hmv : TmResultOk d.states d.tapeSyms Gen.Validate.ntmDirections r)).2.2
+    · exact wf.tail.initOk
+    · exact fun h1 => by
+        rcases wf.tail.initRow with h' | h'
+        · exact absurd h' h1
+        · omega
+    · exact wf.tail.initNotFinal
+    · exact wf.tail.finalsOk
+    · exact wf.tail.finalsNoRow
+    · rintro (⟨kv, hkv, en, hen, hne⟩ | ⟨kv, hkv, en, hen, r, hr, hne⟩)
+      · exact hne (wf.readCount kv hkv en hen)
+      · exact hne (wf.moveCount kv hkv en hen r hr)
+  · intro h
+    have hps : ProperSubset d.syms d.tapeSyms := by simpa [rules] using h .inputNotProperSubset
+    have hst : ∀ kv ∈ d.trans, ∀ r ∈ rowResults kv, r.1 ∈ d.states := by
+      simpa [rules] using h .unknownResultState
+    have hwr : ∀ kv ∈ d.trans, ∀ r ∈ rowResults kv, r.2.1 ∈ d.tapeSyms := by
+      simpa [rules] using h .badWriteSymbol
+    have hdr : ∀ kv ∈ d.trans, ∀ r ∈ rowResults kv, r.2.2 ∈ Gen.Validate.ntmDirections := by
+      simpa [rules] using h .badDirection
+    have hrd : ∀ kv ∈ d.trans, ∀ s ∈ rowReads kv, s ∈ d.tapeSyms := by
+      simpa [rules] using h .badReadSymbol
+    have hnr := h .initialNoRow
+    simp only [rules, not_and, Nat.not_lt] at hnr
+    refine ⟨?_, ?_, ?_, ?_, ?_, ?_, ?_⟩
+    · exact ⟨hps.1, hps.2, by simpa [rules] using h .badBlank⟩
+    · simpa [rules] using h .unknownTransitionState
+    · intro kv hkv rd hrd' s hs
+      exact hrd kv hkv s (List.mem_flatMap.mpr ⟨rd, hrd', hs⟩)
+    · intro kv hkv rs hrs r hr mv hmv
+      have hmem : (r.1, mv.1, mv.2) ∈ rowResults kv := mem_rowResults.mpr ⟨rs, hrs, r, hr, mv, hmv, rfl⟩
+      exact ⟨hst kv hkv _ hmem, hwr kv hkv _ hmem, hdr kv hkv _ hmem⟩
+    · refine ⟨by simpa [rules] using h .badInitial, ?_, by simpa [rules] using h .initialIsFinal,
+        by simpa [rules] using h .badFinal, by simpa [rules] using h .finalHasTransitions⟩
+      by_cases hk : d.init ∈ akeys d.trans
+      · exact Or.inl hk
+      · exact Or.inr (hnr hk)
+    · have := h .badTapeCount
+      simp only [rules, not_or, not_exists, not_and, Classical.not_not] at this
+      exact this.1
+    · have := h .badTapeCount
+      simp only [rules, not_or, not_exists, not_and, Classical.not_not] at this
+      exact this.2
+
+theorem rules_correct : (rules : RuleSys (MNTM σ γ) TmRule).Correct validate where
+  ok_iff d := (validate_eq_ok d).trans (wf_iff d)
+  error_kind d e h := by
+    unfold validate at h
+    rcases Res.andThen_eq_error.mp h with h0 | ⟨ok0, h⟩
+    · rcases tmValidateHead_error _ _ _ e h0 with ⟨a, rfl⟩ | ⟨p, a, rfl⟩
+      · refine ⟨.inputNotProperSubset, a, rfl, ?_⟩
+        intro r' hr'; rw [rules_stage] at hr'; cases r' <;> exact absurd hr' (by decide)
+      · have nP : ¬ rules.Violates d .inputNotProperSubset := fun h => h p
+        refine ⟨.badBlank, a, rfl, ?_⟩
+        intro r' hr'; rw [rules_stage] at hr'; cases r' <;> first | assumption | exact absurd hr' (by decide)
+    have hh := (tmValidateHead_eq_ok _ _ _).mp ok0
+    have nP : ¬ rules.Violates d .inputNotProperSubset := fun h => h ⟨hh.subset, hh.proper⟩
+    have nB : ¬ rules.Violates d .badBlank := fun h => h hh.blankOk
+    rcases Res.andThen_eq_error.mp h with h1 | ⟨ok1, h⟩
+    · obtain ⟨kv, hkv, hrow⟩ := firstErr_eq_error h1
+      have early : ∀ r' : TmRule, (rules : RuleSys (MNTM σ γ) TmRule).stage r' < 2 →
+          ¬ rules.Violates d r' := by
+        intro r' hr'; rw [rules_stage] at hr'; cases r' <;> first | assumption | exact absurd hr' (by decide)
+      rcases validateRow_error d kv e hrow with ⟨a, rfl⟩ | ⟨a, rfl⟩ | ⟨a, rfl⟩ | ⟨a, rfl⟩ | ⟨a, rfl⟩
+      · exact ⟨.unknownTransitionState, ⟨kv, hkv, a⟩, rfl, early⟩
+      · exact ⟨.badReadSymbol, ⟨kv, hkv, a⟩, rfl, early⟩
+      · exact ⟨.unknownResultState, ⟨kv, hkv, a⟩, rfl, early⟩
+      · exact ⟨.badWriteSymbol, ⟨kv, hkv, a⟩, rfl, early⟩
+      · exact ⟨.badDirection, ⟨kv, hkv, a⟩, rfl, early⟩
+    have rows := fun kv hkv => row_ok d kv ((firstErr_eq_ok _ _).mp ok1 kv hkv)
+    have nR1 : ¬ rules.Violates d .unknownTransitionState := by
+      simp only [rules, not_exists, not_and, Classical.not_not]
+      intro kv hkv; exact (rows kv hkv).1
+    have nR2 : ¬ rules.Violates d .badReadSymbol := by
+      simp only [rules, not_exists, not_and, Classical.not_not]
+      intro kv hkv s hs; exact (rows kv hkv).2.1 s hs
+    have nR3 : ¬ rules.Violates d .unknownResultState := by
+      simp only [rules, not_exists, not_and, Classical.not_not]
+      intro kv hkv r hr; exact ((rows kv hkv).2.2 r hr).1
+    have nR4 : ¬ rules.Violates d .badWriteSymbol := by
+      simp only [rules, not_exists, not_and, Classical.not_not]
+      intro kv hkv r hr; exact ((rows kv hkv).2.2 r hr).2.1
+    have nR5 : ¬ rules.Violates d .badDirection := by
+      simp only [rules, not_exists, not_and, Classical.not_not]
+      intro kv hkv r hr; exact ((rows kv hkv).2.2 r hr).2.2
+    rcases Res.andThen_eq_error.mp h with h2 | ⟨ok2, h⟩
+    · have h := h2
+      rcases tmValidateTail_error _ _ _ _ e h with ⟨a, rfl⟩ | ⟨p0, a, rfl⟩ | ⟨p0, p1, a, rfl⟩ | ⟨p0, p1, p2, a, rfl⟩ | ⟨p0, p1, p2, p3, a, rfl⟩
+      · refine ⟨.badInitial, a, rfl, ?_⟩
+        intro r' hr'; rw [rules_stage] at hr'; cases r' <;> first | assumption | exact absurd hr' (by decide)
+      · have nI : ¬ rules.Violates d .badInitial := fun h => h p0
+        refine ⟨.initialNoRow, a, rfl, ?_⟩
+        intro r' hr'; rw [rules_stage] at hr'; cases r' <;> first | assumption | exact absurd hr' (by decide)
+      · have nI : ¬ rules.Violates d .badInitial := fun h => h p0
+        have nN : ¬ rules.Violates d .initialNoRow := not_initialNoRow p1
+        refine ⟨.initialIsFinal, a, rfl, ?_⟩
+        intro r' hr'; rw [rules_stage] at hr'; cases r' <;> first | assumption | exact absurd hr' (by decide)
+      · have nI : ¬ rules.Violates d .badInitial := fun h => h p0
+        have nN : ¬ rules.Violates d .initialNoRow := not_initialNoRow p1
+        have nF : ¬ rules.Violates d .initialIsFinal := fun h => p2 h
+        refine ⟨.badFinal, a, rfl, ?_⟩
+        intro r' hr'; rw [rules_stage] at hr'; cases r' <;> first | assumption | exact absurd hr' (by decide)
+      · have nI : ¬ rules.Violates d .badInitial := fun h => h p0
+        have nN : ¬ rules.Violates d .initialNoRow := not_initialNoRow p1
+        have nF : ¬ rules.Violates d .initialIsFinal := fun h => p2 h
+        have nG : ¬ rules.Violates d .badFinal := by
+          simp only [rules, not_exists, not_and, Classical.not_not]; exact p3
+        refine ⟨.finalHasTransitions, a, rfl, ?_⟩
+        intro r' hr'; rw [rules_stage] at hr'; cases r' <;> first | assumption | exact absurd hr' (by decide)
+    have ht := (tmValidateTail_eq_ok _ _ _ _).mp ok2
+    have nI : ¬ rules.Violates d .badInitial := fun h => h ht.initOk
+    have nN : ¬ rules.Violates d .initialNoRow := not_initialNoRow ht.initRow
+    have nF : ¬ rules.Violates d .initialIsFinal := fun h => ht.initNotFinal h
+    have nG : ¬ rules.Violates d .badFinal := by
+      simp only [rules, not_exists, not_and, Classical.not_not]; exact ht.finalsOk
+    have nH : ¬ rules.Violates d .finalHasTransitions := by
+      simp only [rules, not_exists, not_and]; exact ht.finalsNoRow
+    have hv : rules.Violates d .badTapeCount := by
+      unfold validateTapes at h
+      obtain ⟨kv, hkv, hg⟩ := firstErr_eq_error h
+      obtain ⟨en, hen, hg⟩ := firstErr_eq_error hg
+      rcases Res.andThen_eq_error.mp hg with h3 | ⟨_, hg⟩
+      · obtain ⟨hc, _⟩ := guardE_eq_error.mp h3
+        exact Or.inl ⟨kv, hkv, en, hen, by simpa using hc⟩
+      · obtain ⟨r, hr, hg⟩ := firstErr_eq_error hg
+        obtain ⟨hc, _⟩ := guardE_eq_error.mp hg
+        exact Or.inr ⟨kv, hkv, en, hen, r, hr, by simpa using hc⟩
+    have he : e = .lib .inconsistentTapesException := by
+      unfold validateTapes at h
+      obtain ⟨kv, hkv, hg⟩ := firstErr_eq_error h
+      obtain ⟨en, hen, hg⟩ := firstErr_eq_error hg
+      rcases Res.andThen_eq_error.mp hg with h3 | ⟨_, hg⟩
+      · exact (guardE_eq_error.mp h3).2
+      · obtain ⟨r, hr, hg⟩ := firstErr_eq_error hg
+        exact (guardE_eq_error.mp hg).2
+    refine ⟨.badTapeCount, hv, he, ?_⟩
+    intro r' hr'; rw [rules_stage] at hr'; cases r' <;> first | assumption | exact absurd hr' (by decide)
+
+
+end MNTM
 
 end AV
